@@ -454,7 +454,7 @@ fn budget(prop: &str, tier: &str) -> Budget {
     let quick = match prop {
         "C14" => 6000,
         "C07" | "C12" | "C08" => 5000,
-        "C16" => 2500,
+        "C16" => 1800,
         _ => 4000,
     };
     let second = std::env::var("CCSIM_EVIDENCE_TAG").is_ok();
